@@ -125,7 +125,7 @@ Theorem c07_no_import_no_ctor : forall W (S : sem W) w l v,
 Proof.
   intros W S w l v Hin. apply in_split in Hin as (t1 & t2 & E).
   destruct (vinegar_effects S default_config _ _ _ _ _ handlers_guarded w l _ _ _ E) as (A & B & D). repeat split.
-  - intros m ->. discriminate (A m eq_refl).
+  - intros m ->. destruct (A m eq_refl) as [X|X]; discriminate X.
   - exact B.
   - intros c Hc. exact (D c Hc eq_refl).
 Qed.
